@@ -57,6 +57,14 @@ class Ctx:
     def check(self, *extra):
         t = time.time()
         r = self.solver.check(*extra)
+        if r == z3.unknown and self.solver.reason_unknown() in ("canceled", "timeout"):
+            # the per-query time limit was hit (a loaded machine): one more attempt with four times the limit;
+            # a second 'unknown' stays inconclusive - never a pass
+            self.solver.set("timeout", 4 * SOLVER_TIMEOUT_MS)
+            try:
+                r = self.solver.check(*extra)
+            finally:
+                self.solver.set("timeout", SOLVER_TIMEOUT_MS)
         self.tq += time.time() - t
         self.nq += 1
         if r == z3.unknown:
